@@ -247,6 +247,18 @@ check:
 				break check
 			}
 		}
+		// A submodule also has access to the typedefs of the module it
+		// belongs to and of all the submodules of that module.
+		if root.BelongsTo != nil && root.Modules != nil {
+			if m := root.Modules.Modules[root.BelongsTo.Name]; m != nil {
+				if td = d.find(m, name); td != nil {
+					break check
+				}
+				if td = d.findIncluded(m, name, map[*Module]bool{}); td != nil {
+					break check
+				}
+			}
+		}
 		var pname string
 		switch {
 		case prefix == "", prefix == rootPrefix:
